@@ -6,7 +6,7 @@ Specification: specs/Posterior.tla (+ PosteriorLink.tla, ResampleOps.tla, Trim.t
 1. TLC explores Posterior.tla exhaustively: SamplerCore.compute_posterior as a state machine (Load, the
    while-loop of trim_weights, the index vector applied to u / x / logl / blobs / logw, the systematic comb
    at EVERY offset of the finite partition of [0,1), the return statement) over all histories of
-   N <= MaxLen tagged records with small integer weights (zeros included), all 2^4 flag combinations,
+   N <= MaxLen tagged records with non-negative integer weights of sum <= MaxSum (zeros anywhere), all 2^4 flag combinations,
    blobs configured / not configured, ess_trim in {1/2, 9/10, 99/100}, bins_trim in {2, 3, 10}.
    Invariants: equal lengths; row p of samples / logL / blobs / log-weights carries the id of the same
    record; weights >= 0 summing to exactly one, aligned with their record; uniform 1/n after resampling;
@@ -127,119 +127,175 @@ def history_digest(np, st, hb):
     return tuple(np.asarray(st.get_history(k)).tobytes() for k in keys) + (st.get_history_length(),)
 
 
+def load_history(np, Sampler, w, hb):
+    """-> (sampler, tagged rows, full-history log-weights, conclusive?)"""
+    N, S = len(w), sum(w)
+    s, t = build(np, Sampler, w, hb)
+    logw_full = np.array(s.state.compute_logw_and_logz(1.0)[0], dtype=float)
+    # binding precondition: the loaded history has the spec's weights (w/S) and equal integers are equal doubles
+    wt = np.exp(logw_full - logw_full.max())
+    wt /= wt.sum()
+    ok = all(abs(wt[j] - w[j] / S) <= 1e-13 for j in range(N))
+    ok = ok and all(wt[a] == wt[b] and logw_full[a] == logw_full[b] for a in range(N) for b in range(N) if w[a] == w[b])
+    return s, t, logw_full, ok
+
+
+def call_posterior(np, s, case):
+    """One scripted call of the public entry point: -> (output | exception, raised?, uniform draws consumed)."""
+    f = case["flags"]
+    off = case["offset"]
+    u0 = (off[0] / float(off[1])) if off else 0.5
+    with Scripted(np, u0) as scr:
+        try:
+            got = s.posterior(resample=f["resample"], return_blobs=f["return_blobs"],
+                              trim_importance_weights=f["trim_importance_weights"], return_logw=f["return_logw"],
+                              ess_trim=case["ess_trim"], bins_trim=case["bins_trim"])
+        except Exception as ex:  # an exception is an outcome no spec action matches
+            return ex, True, scr.calls
+    return got, False, scr.calls
+
+
+def judge(np, w, t, logw_full, case, got, raised, calls):
+    """Compare one observed outcome with the spec's terminal state: -> list of (key, what)."""
+    N, S = len(w), sum(w)
+    exp = case["expected"]
+    out, xs, ls, bs, lws = exp["out"], exp["ids"], exp["logl_ids"], exp["blob_ids"], exp["logw_ids"]
+    wn, wd = exp["weights"]
+    n = len(xs)
+    if raised:
+        return [("replay:raised", f"posterior() raised {got!r}")]
+    v = []
+    want_calls = 1 if case["flags"]["resample"] else 0
+    if calls != want_calls:
+        v.append(("replay:rng-draws", f"{calls} uniform draws consumed, expected {want_calls}"))
+    if not isinstance(got, tuple) or len(got) != len(out):
+        return v + [("replay:arity", f"returned {len(got) if isinstance(got, tuple) else type(got).__name__} values, documented {list(out)}")]
+    if any(g is None for g in got):
+        return v + [("replay:arity", f"returned None for one of {list(out)}")]
+    res = {nm: np.asarray(g) for nm, g in zip(out, got)}
+    lens = {nm: (len(g) if g.ndim else -1) for nm, g in res.items()}
+    if any(x != n for x in lens.values()):
+        return v + [("replay:length", f"returned lengths {lens}, expected {n} rows each")]
+    # samples: decode record ids from the (distinct) x rows
+    gx = res["x"]
+    ids = []
+    for p in range(n):
+        hit = [j + 1 for j in range(N) if gx.shape == (n, 2) and np.array_equal(gx[p], t["x"][j])]
+        ids.append(hit[0] if hit else 0)
+    if 0 in ids:
+        return v + [("replay:x-rows", f"a returned sample row is not the x row of any stored record: {gx.tolist()}")]
+    if ids != list(xs):
+        return v + [("replay:x-rows", f"returned samples are records {ids}, expected {list(xs)}")]
+    gw = res["weights"].astype(float)
+    if not all(abs(gw[p] - wn[p] / wd) <= TOL for p in range(n)) or np.any(gw < 0) or abs(float(gw.sum()) - 1.0) > TOL:
+        v.append(("replay:weights", f"weights {gw.tolist()} expected {[f'{a}/{wd}' for a in wn]}"))
+    if not all(res["logl"][p] == t["logl"][ls[p] - 1] for p in range(n)):
+        v.append(("replay:logl-rows", f"logl rows {res['logl'].tolist()} are not those of records {list(ls)}"))
+    if "blobs" in res and not all(res["blobs"][p] == t["blobs"][bs[p] - 1] for p in range(n)):
+        v.append(("replay:blobs-rows", f"blob rows {res['blobs'].tolist()} are not those of records {list(bs)}"))
+    if "logw" in res:
+        glw = res["logw"].astype(float)
+        if not all(abs(glw[p] - logw_full[lws[p] - 1]) <= TOL for p in range(n)):
+            v.append(("replay:logw-rows", f"log-weight rows {glw.tolist()} are not the full-history log-weights of records {list(lws)}"))
+        elif not all(abs(math.exp(glw[p]) - w[lws[p] - 1] / S) <= TOL for p in range(n)):
+            v.append(("replay:logw-rows", f"exp(log-weight) rows differ from w/S of records {list(lws)}"))
+    return v
+
+
 def replay_group(job):
     """All terminal states of one (w, hb): -> (counters, violations, samples)."""
     import numpy as np
     from tempest import Sampler
 
     w, hb, cases = job
-    N, S = len(w), sum(w)
+    N = len(w)
     cnt = defaultdict(int)
     viol = []
     samples = []
 
-    def bad(key, what, case, extra=None):
-        rp = {"w": list(w), "blobs_configured": bool(hb), "case": case}
-        rp.update(extra or {})
-        viol.append((key, what, rp))
+    def bad(key, what, case):
+        viol.append((key, what, {"w": list(w), "blobs_configured": bool(hb), "case": case}))
 
     try:
-        s, t = build(np, Sampler, w, hb)
-        logw_full, _ = s.state.compute_logw_and_logz(1.0)
-        logw_full = np.array(logw_full, dtype=float)
+        s, t, logw_full, ok = load_history(np, Sampler, w, hb)
     except Exception as ex:
         bad("replay:load-raised", f"loading the history through the public API raised {ex!r}", None)
         return dict(cnt), viol, samples
-    # binding precondition: the loaded history has the spec's weights (w/S) and equal integers are equal doubles
-    wt = np.exp(logw_full - logw_full.max())
-    wt /= wt.sum()
-    ok = all(abs(wt[j] - w[j] / S) <= 1e-13 for j in range(N))
-    ok = ok and all(wt[a] == wt[b] and logw_full[a] == logw_full[b] for a in range(N) for b in range(N) if w[a] == w[b])
     if not ok:
         cnt["inconclusive_loading"] += len(cases)
         return dict(cnt), viol, samples
     digest = history_digest(np, s.state, hb)
     pair = {}
     for c in cases:
-        (fl, essp, bins, k, cq, amb, out, us, xs, ls, bs, lws, wn, wd) = c
+        (fl, essp, bins, k, cq, amb, out, mask, xs, ls, bs, lws, wn, wd) = c
         flagged = [AMB[p] for p in range(5) if amb[p]]
         if flagged:
             cnt["flagged_not_replayed"] += 1
             for f in flagged:
                 cnt["flag_" + f] += 1
             continue
-        resample, rb, trim, rl = (bool(v) for v in fl)
+        resample, rb, trim, rl = (bool(x) for x in fl)
         case = {"flags": {"resample": resample, "return_blobs": rb, "trim_importance_weights": trim, "return_logw": rl},
                 "ess_trim": essp / 100.0, "bins_trim": bins, "offset": [k, 2 * cq] if cq else None,
-                "expected": {"out": list(out), "ids": list(xs), "weights": [list(wn), wd]}}
-        u0 = (k / (2.0 * cq)) if cq else 0.5
-        with Scripted(np, u0) as scr:
-            try:
-                got = s.posterior(resample=resample, return_blobs=rb, trim_importance_weights=trim, return_logw=rl,
-                                  ess_trim=essp / 100.0, bins_trim=bins)
-            except Exception as ex:
-                bad("replay:raised", f"posterior() raised {ex!r}", case)
-                continue
+                "expected": {"out": list(out), "ids": list(xs), "logl_ids": list(ls), "blob_ids": list(bs), "logw_ids": list(lws),
+                             "weights": [list(wn), wd]}}
+        got, raised, calls = call_posterior(np, s, case)
         cnt["replays"] += 1
         cnt["replays_blobs_configured" if hb else "replays_blobs_not_configured"] += 1
-        n = len(xs)
+        cnt["combo:" + "".join(str(int(x)) for x in fl) + str(int(hb))] += 1
         ident = list(xs) == list(range(1, N + 1))
         if not ident:
             cnt["nontrivial"] += 1
             if len(set(w)) == N:
                 cnt["nontrivial_all_weights_distinct"] += 1
-        if len(samples) < 2 and not ident and resample and trim:
-            samples.append(dict(case, w=list(w), blobs_configured=bool(hb)))
-        if scr.calls != (1 if resample else 0):
-            bad("replay:rng-draws", f"{scr.calls} uniform draws consumed, expected {1 if resample else 0}", case)
-        if not isinstance(got, tuple) or len(got) != len(out):
-            bad("replay:arity", f"returned {len(got) if isinstance(got, tuple) else type(got).__name__} values, documented {list(out)}", case)
-            continue
-        res = {nm: np.asarray(v) for nm, v in zip(out, got)}
-        lens = {nm: len(v) for nm, v in res.items()}
-        if any(v != n for v in lens.values()):
-            bad("replay:length", f"returned lengths {lens}, expected {n} rows each", case)
-            continue
-        # samples: decode record ids from the (distinct) x rows
-        gx = res["x"]
-        ids = []
-        for p in range(n):
-            hit = [j + 1 for j in range(N) if gx.shape == (n, 2) and np.array_equal(gx[p], t["x"][j])]
-            ids.append(hit[0] if hit else 0)
-        if 0 in ids:
-            bad("replay:x-rows", f"a returned sample row is not the x row of any stored record: {gx.tolist()}", case)
-            continue
-        if ids != list(xs):
-            bad("replay:x-rows", f"returned samples are records {ids}, expected {list(xs)}", case)
-            continue
-        gw = res["weights"]
-        if not all(abs(float(gw[p]) - wn[p] / wd) <= TOL for p in range(n)) or np.any(gw < 0) or abs(float(gw.sum()) - 1.0) > TOL:
-            bad("replay:weights", f"weights {gw.tolist()} expected {[f'{a}/{wd}' for a in wn]}", case)
-        if not all(res["logl"][p] == t["logl"][ls[p] - 1] for p in range(n)):
-            bad("replay:logl-rows", f"logl rows {res['logl'].tolist()} are not those of records {list(ls)}", case)
-        if "blobs" in res and not all(res["blobs"][p] == t["blobs"][bs[p] - 1] for p in range(n)):
-            bad("replay:blobs-rows", f"blob rows {res['blobs'].tolist()} are not those of records {list(bs)}", case)
-        if "logw" in res:
-            glw = res["logw"]
-            if not all(abs(float(glw[p]) - logw_full[lws[p] - 1]) <= TOL for p in range(n)):
-                bad("replay:logw-rows", f"log-weight rows {glw.tolist()} are not the full-history log-weights of records {list(lws)}", case)
-            elif not all(abs(math.exp(float(glw[p])) - w[lws[p] - 1] / S) <= TOL for p in range(n)):
-                bad("replay:logw-rows", f"exp(log-weight) rows differ from w/S of records {list(lws)}", case)
+        if trim and any(w[j] > 0 and (j + 1) not in mask for j in range(N)):
+            cnt["trim_dropped_positive_weight"] += 1
+        elif trim and len(mask) < N:
+            cnt["trim_dropped_zero_weight_only"] += 1
+        if len(samples) < 2 and resample and trim and rl and len(mask) < N and len(set(xs)) < len(xs):
+            samples.append({"w": list(w), "blobs_configured": bool(hb), "case": case})
+        vs = judge(np, w, t, logw_full, case, got, raised, calls)
+        for key, what in vs:
+            bad(key, what, case)
         # without blobs configured return_blobs changes nothing: compare the two real outputs
-        if not hb:
+        if not hb and not raised and isinstance(got, tuple):
             key = (resample, trim, rl, essp, bins, k, cq)
             other = pair.pop(key, None)
             if other is None:
-                pair[key] = (rb, got)
+                pair[key] = got
             else:
                 cnt["noblobs_pairs_compared"] += 1
-                same = len(other[1]) == len(got) and all(np.array_equal(np.asarray(a), np.asarray(b)) for a, b in zip(other[1], got))
+                same = len(other) == len(got) and all(np.array_equal(np.asarray(a), np.asarray(b)) for a, b in zip(other, got))
                 if not same:
                     bad("replay:noblobs-differs", "without blobs configured the outputs for return_blobs=False/True differ", case)
         if history_digest(np, s.state, hb) != digest:
             bad("replay:state-modified", "posterior() modified the stored history", case)
             break
     return dict(cnt), viol, samples
+
+
+def replay_file(path):
+    """./check C12 --replay <path> for a replay file written by this module: re-run the case, print both sides."""
+    import json
+
+    core.import_repo()
+    import numpy as np
+    from tempest import Sampler
+
+    with open(path) as f:
+        doc = json.load(f)
+    rp = doc["replay"]
+    w, hb, case = tuple(rp["w"]), int(bool(rp["blobs_configured"])), rp["case"]
+    s, t, logw_full, ok = load_history(np, Sampler, w, hb)
+    got, raised, calls = call_posterior(np, s, case)
+    print(f"history: integer weights {list(w)} (logl = ln w), blobs configured: {bool(hb)}; loading conclusive: {ok}")
+    print(f"call: posterior({case['flags']}, ess_trim={case['ess_trim']}, bins_trim={case['bins_trim']}), numpy.random.random() -> {case['offset']}")
+    print(f"expected (Posterior.tla): {case['expected']}")
+    print(f"observed: {got!r}")
+    vs = judge(np, w, t, logw_full, case, got, raised, calls)
+    for key, what in vs:
+        print(f"  key={key}: {what}")
+    return 1 if vs else 0
 
 
 # --------------------------------------------------------------------------- main part
@@ -294,7 +350,7 @@ def component_part(ck) -> dict:
         ndone += 1
         groups[(tuple(st["w"]), st["hb"])].append(
             (tuple(st["flags"]), st["essp"], st["bins"], st["k"], st["cq"], tuple(st["amb"]), tuple(st["out"]),
-             tuple(st["us"]), tuple(st["xs"]), tuple(st["ls"]), tuple(st["bs"]), tuple(st["lws"]), tuple(st["wn"]), st["wd"]))
+             tuple(st["mask"]), tuple(st["xs"]), tuple(st["ls"]), tuple(st["bs"]), tuple(st["lws"]), tuple(st["wn"]), st["wd"]))
     res.cleanup()
     jobs = [(w, hb, cs) for (w, hb), cs in sorted(groups.items())]
     jobs.sort(key=lambda j: -len(j[2]))
@@ -316,6 +372,8 @@ def component_part(ck) -> dict:
         "posterior_replays_blobs_configured": tot["replays_blobs_configured"],
         "posterior_replays_blobs_not_configured": tot["replays_blobs_not_configured"],
         "posterior_nontrivial_all_weights_distinct": tot["nontrivial_all_weights_distinct"],
+        "posterior_trim_dropped_positive_weight": tot["trim_dropped_positive_weight"],
+        "posterior_trim_dropped_zero_weight_only": tot["trim_dropped_zero_weight_only"],
         "posterior_noblobs_pairs_compared": tot["noblobs_pairs_compared"],
         "posterior_flagged_not_replayed": tot["flagged_not_replayed"],
         "posterior_flags": {f: tot["flag_" + f] for f in AMB},
@@ -327,13 +385,17 @@ def component_part(ck) -> dict:
     })
     if tot["replays"] + tot["flagged_not_replayed"] + tot["inconclusive_loading"] != ndone and not ck.violations:
         raise RuntimeError(f"binding lost: {ndone} terminal states, {dict(tot)} accounted for")
-    if tot["replays"] == 0 or tot["nontrivial"] == 0:
-        raise RuntimeError("vacuous: no terminal state was replayed")
+    combos = sorted(k_ for k_ in tot if k_.startswith("combo:"))
+    cov["posterior_flag_combinations_replayed"] = len(combos)   # 2^4 flags x blobs configured / not
+    if (tot["replays"] == 0 or tot["nontrivial"] == 0 or len(combos) != 32) and not ck.violations:
+        raise RuntimeError(f"vacuous: {tot['replays']} replays, {tot['nontrivial']} non-trivial, {len(combos)}/32 flag combinations")
     return cov
 
 
 def main():
     ck = core.Check("C12", "model_checking", description=__doc__)
+    if ck.args.replay:
+        sys.exit(replay_file(ck.args.replay))
     cov = component_part(ck)
     ck.assumptions += [
         "weights are loaded as logl = ln(w) (zero weight: logl = -745): the double weights equal w/S to 1e-13, equal integers "
